@@ -223,4 +223,105 @@ CLAIMS = {
   'note': TRUST,
   'technique': 'static analysis: ordering/window rules on enumerated paths',
  },
+ 'C01': {
+  'text': 'Structure only; the round trip over the unbounded packet grammar '
+          'and interoperability with an independent codec are NOT decided. '
+          'Decided: the binary gate as a complete 36-row decision table '
+          '(byte strings only promote EVENT/ACK, everything else raises); '
+          'agreement of the three tree walkers on container kinds, bytes '
+          'leaf and dict-value recursion; placeholder key agreement and '
+          'depth-first numbering (num = len(attachments)-1 after the '
+          'append); the encoder layout as a 36-row table over binary x '
+          'namespace {None, "/", other} x id x data (order type, count-, '
+          'nsp, id, compact JSON; a truthiness test that would drop id 0 is '
+          'reported); the attachment hand-back protocol; extraction order '
+          'and separators of the scanner agree with the emitter.',
+  'note': TRUST + 'json fidelity and grammar ambiguities (digit adjacency) '
+          'are outside the decided part.',
+  'technique': 'static analysis: decision tables by symbolic path '
+               'enumeration, writer/reader schema agreement',
+ },
+ 'C02': {
+  'text': 'Structure only; value fidelity of nested payloads through '
+          'json/msgpack/framing is NOT decided. Decided at every site: emit '
+          'packing table (4 sites x 7 kinds of data), dispatch unpacking '
+          '(data[0], *data[1:]), ack packing tables (4 sites), call() result '
+          'tables (4 sites), callbacks receive *data, frames of a packet are '
+          'sent by plain in-order iteration of the encoder\'s list, each of '
+          'the 26 packet construction sites names its namespace (ACKs the '
+          'incoming id), engine.io is built with async_handlers=False, the '
+          'msgpack dict written by _to_dict matches what decode reads, and '
+          'no resolved in-package call binds a parameter-named argument to '
+          'a different parameter (swapped arguments; positive control).',
+  'note': TRUST + 'engine.io delivers frames in order.',
+  'technique': 'static analysis: decision tables, call-binding and schema '
+               'agreement over the ast',
+ },
+ 'C03': {
+  'text': 'Structure only; the exact recipient set over all membership '
+          'histories is NOT decided. Decided: every hand-off to the '
+          'transport in (Async)Manager.emit is inside the loop over '
+          'get_participants(own namespace, to or room), addressed to that '
+          'iteration\'s transport id and guarded by `sid not in skip_sid` '
+          'with skip_sid normalised to a list; every first-level index of '
+          'rooms is the function\'s namespace parameter (21 accesses); '
+          'rooms is mutated only by basic_enter_room/basic_leave_room '
+          'package-wide; each emit layer resolves `to or room`; '
+          'basic_disconnect leaves every room holding the sid with '
+          'membership as the only filter, close_room empties the room, '
+          'get_rooms hides only room None; recipients are accumulated in a '
+          'mapping keyed by sid (delivery once per client).',
+  'note': TRUST + 'bidict semantics trusted.',
+  'technique': 'static analysis: guard dominance and provenance on '
+               'enumerated paths, ownership, key discipline',
+ },
+ 'C07': {
+  'text': 'Structure only; equivalence of a cluster with one server over '
+          'all placements and channel delays is NOT decided. Decided: '
+          'publisher/listener/handler schema agreement (7 published '
+          'literals per class, every field a handler reads is written, '
+          'host_id on every non-callback message, one arm per method and a '
+          'writer per arm); the echo filter evaluated per method with an '
+          'own/foreign host oracle; callbacks complete only on the '
+          'addressed host and are relayed with the token\'s host; queued '
+          'operations apply locally once then publish once, ignore_queue '
+          'stays local, enter/leave are local xor publish; remote room '
+          'operations are guarded by is_connected; callback token shape '
+          '(room, namespace, id), arity test and relay binding.',
+  'note': TRUST + 'the backend channel is FIFO and reaches every host.',
+  'technique': 'static analysis: writer/reader schema agreement, decision '
+               'table over message method x origin, pairing/order on paths',
+ },
+ 'C15': {
+  'text': 'Decides containment: with every call site of the per-message '
+          'body and the listen iterator allowed to raise an arbitrary '
+          'Exception, no path leaves _thread; handlers neither break, '
+          'return nor re-raise (asyncio: CancelledError only); each decoder '
+          'sits alone in a catch-all try and JSON is still tried after a '
+          'failed pickle; unknown methods are ignored; own messages are not '
+          're-applied and foreign acknowledgements complete nothing; the '
+          'Redis (thorough: Kombu, AioPika) listen loops stay in the loop '
+          'with a capped back-off and _publish makes at most two attempts.',
+  'note': TRUST + 'logger calls do not raise.',
+  'technique': 'static analysis: exceptional-exit enumeration over '
+               'structured paths (every call a raiser)',
+ },
+ 'C18': {
+  'text': 'Decides: the credential decision of admin_connect as a table '
+          'over auth kind {falsy, dict, list, predicate, coroutine '
+          'predicate} x {match, no match} - accepted only when auth is '
+          'falsy or the comparison that belongs to the kind is true, '
+          'refused before any side effect otherwise; every registration of '
+          'an admin handler that can emit outside the admin namespace, '
+          'change rooms or disconnect is dominated by `not read_only` and '
+          'all registrations are on the admin namespace; each wrapper '
+          'installed by instrument() (derived from its save/replace pairs: '
+          '12 per class) calls the saved original exactly once with its own '
+          'parameters and returns its result; the instrumentation emits '
+          'only on the admin namespace. Timing and failures inside the '
+          'instrumentation are NOT decided.',
+  'note': TRUST + 'Python equality decides "equals the credentials".',
+  'technique': 'static analysis: decision table, guard dominance, wrapper '
+               'forwarding check',
+ },
 }
